@@ -9,7 +9,7 @@
 From Coq Require Import List NArith ZArith QArith Bool.
 From Similari Require Import Base.Num Model.Constraints Model.Tracker
      Proofs.TrackerBase Proofs.TrackerPredict Proofs.TrackerInv Proofs.TrackerC01 Proofs.TrackerSolver
-     Model.Assign Proofs.AssignProofs Proofs.TrackerAssign.
+     Model.Assign Proofs.AssignProofs Proofs.TrackerAssign Proofs.TrackerVisual.
 Import ListNotations.
 Open Scope N_scope.
 
@@ -126,6 +126,49 @@ Proof.
   intros G D2R c km Hkm. exact (predict_ids_nodup G D2R (assign_solver km) c (assign_solver_sound km Hkm)).
 Qed.
 
+(* THE VISUAL TRACKERS (VisualSort, BatchVisualSort).  They share the whole lifecycle with SORT; their step function in
+   the model is [tstep_visual] = the same operations with their own TRANSLATED prologue (gen/ScalarTracker.v
+   auto_waste_prologue_visual / _batch_visual), which coincides with [tstep] by the spec lemma; what differs is how a
+   call associates detections with relevant tracks (C12).  [given_solver f] uses an association supplied from outside
+   (per call, by tag and column names) iff it passes the executable interface check [sound_assignmentb] (one answer per
+   candidate, only offered pairs, no track twice), else "all new" - it satisfies the interface for EVERY f. *)
+Theorem given_solver_sound : forall f, solver_sound (given_solver f).
+Proof. exact given_solver_sound_lemma. Qed.
+
+Theorem visual_step_is_tracker_step :
+  forall G D2R solve c st op, tstep_visual G D2R solve c st op = tstep G D2R solve c st op.
+Proof. exact tstep_visual_eq. Qed.
+
+Theorem visual_reachable_is_reachable :
+  forall G D2R solve c st, reach_visual G D2R solve c st <-> reach G D2R solve c st.
+Proof. exact reach_visual_iff. Qed.
+
+(* the whole output contract for a visual tracker whose association is ANY function passing the check *)
+Theorem theorems_apply_to_visual_trackers :
+  forall G D2R f c st scene dets recs st',
+    reach_visual G D2R (given_solver f) c st -> ok_op st (Predict scene dets) ->
+    tstep_visual G D2R (given_solver f) c st (Predict scene dets) = (ORecords recs, st') ->
+    length recs = length dets
+    /\ (forall i d r, nth_error dets i = Some d -> nth_error recs i = Some r ->
+          r_obs r = d_uid d /\ r_custom r = d_custom d /\ r_scene r = scene)
+    /\ (epoch_of (epochs st') scene = epoch_of (epochs st) scene + 1 /\
+        forall i d r, nth_error dets i = Some d -> nth_error recs i = Some r ->
+          r_epoch r = epoch_of (epochs st') scene /\
+          exists t, In t (live st') /\ t_id t = r_id r /\ r_len r = t_len t
+                    /\ t_len t = N.of_nat (length (g_dets t)) /\ last (g_dets t) 0 = d_uid d)
+    /\ NoDup (map r_id recs)
+    /\ (forall r, In r recs ->
+          (exists t0, In t0 (live st) /\ t_id t0 = r_id r /\ t_scene t0 = scene) \/ next_id st < r_id r <= next_id st').
+Proof.
+  intros G D2R f c st scene dets recs st' Hr Hok H.
+  apply reach_visual_iff in Hr. rewrite tstep_visual_eq in H. pose proof (given_solver_sound f) as Hs.
+  split; [exact (predict_one_record_per_detection G D2R _ c Hs _ _ _ _ _ Hr H)|].
+  split; [exact (predict_records_in_order G D2R _ c Hs _ _ _ _ _ Hr H)|].
+  split; [exact (predict_record_epoch_len G D2R _ c Hs _ _ _ _ _ Hr H)|].
+  split; [exact (predict_ids_nodup G D2R _ c Hs _ _ _ _ _ Hr Hok H)|].
+  exact (new_ids_fresh G D2R _ c Hs _ _ _ _ _ Hr H).
+Qed.
+
 (* Non-vacuity: a crowded call - 3 mutually overlapping detections (every one gated to both tracks) over 2
    live tracks.  Both branches (continue / start) are exercised, the ids are distinct, the new id is fresh. *)
 Definition ex_G (cand : N) (dets : list N) : option Z :=
@@ -152,3 +195,14 @@ Example c01_nonvacuous_real_voting :
   fst (trun ex_G (fun _ _ => 0%Q) (assign_solver km_brute) ex_cfg [Predict 7 [ex_D 1; ex_D 2]; Predict 7 [ex_D 3; ex_D 4; ex_D 5]])
   = fst (trun ex_G (fun _ _ => 0%Q) best_matching ex_cfg [Predict 7 [ex_D 1; ex_D 2]; Predict 7 [ex_D 3; ex_D 4; ex_D 5]]).
 Proof. vm_compute. reflexivity. Qed.
+
+(* the visual route: the association read off a run (by track names) is used when it passes the check - records as
+   above -, and an association that gives track 1 to two detections of the call is rejected ("all new") *)
+Example c01_visual_nonvacuous :
+  let ids hs := map (fun o => match o with ORecords l => map r_id l | _ => [] end)
+                    (fst (trun_visual ex_G (fun _ _ => 0%Q) (given_solver (given_by_name hs)) ex_cfg
+                                      [Predict 7 [ex_D 1; ex_D 2]; Predict 7 [ex_D 3; ex_D 4; ex_D 5]])) in
+  ids [(3, [Some 1; Some 2; None])] = [[1; 2]; [1; 2; 3]]
+  /\ ids [(3, [Some 1; Some 1; None])] = [[1; 2]; [3; 4; 5]]
+  /\ sound_assignmentb 3 [(0%nat, 0%nat, 900000%Z); (1%nat, 0%nat, 600000%Z); (1%nat, 1%nat, 800000%Z)] [Some 0%nat; Some 0%nat; None] = false.
+Proof. vm_compute. repeat split; reflexivity. Qed.
